@@ -5,14 +5,14 @@ from harness import core, tlc, writefx
 
 RULE = ("spec->code: every history {build|read ok|read with wrong STOP} ; {edit index|other curve|header}* ; write(opts)^k that "
         "the WriteAlgo model admits within MaxOps (all paths of its state graph, TLC) x index shapes {increasing, decreasing, "
-        "single sample, irregular; and a sample of the histories on 255..2048-row indexes} is executed on real LASFile objects with a full snapshot before and after every write(); "
+        "single sample, irregular, returning to its first value; and a sample of the histories on 255..2048-row indexes} is executed on real LASFile objects with a full snapshot before and after every write(); "
         "traces validated by Trace_Write.  Distinct by full history (origin, shape, edits, option sets).")
 
 
 def run(ctx):
     rng = random.Random(ctx.seed)
     thorough = ctx.tier == "thorough"
-    shapes = ["inc", "dec", "single", "irregular"]
+    shapes = ["inc", "dec", "single", "irregular", "returning"]
     optsets = ["default", "v12", "wrap"] if not thorough else ["default", "v12", "wrap", "fmt2"]
     hists, nedges = writefx.histories_from_tlc(ctx, shapes, optsets, 5 if not thorough else 6)
     ctx.extra["model_histories"] = len(hists)
